@@ -42,13 +42,15 @@ def named(name):
     return a
 
 
-def gen_layer(sg, k):
-    """layer in a symmorphic group: a 3D crystal of the group with a long normal axis and atoms in a thin slice"""
+def gen_layer(sg, k, inplane=False):
+    """layer in a symmorphic group: a 3D crystal of the group with a long normal axis and atoms in a thin slice.
+    inplane=True (monoclinic groups 3, 6, 10 only): the unique axis b lies IN the plane (rectangular in-plane cell, normal c),
+    with in-plane parameters up to 9 A - longer than the vacuum the analysis uses internally."""
     from ase.spacegroup import crystal
 
-    rng = rng_for("layer", sg, k)
+    rng = rng_for("layer", sg, k, inplane) if inplane else rng_for("layer", sg, k)  # (the 2D inputs of C08 are pinned through this generator)
     for attempt in range(40):
-        a, b = rng.uniform(3.0, 6.0, 2)
+        a, b = rng.uniform(3.0, 9.0 if inplane else 6.0, 2)
         if abs(a - b) < 0.3:
             b += 0.5
         cn = 14.0
@@ -58,8 +60,10 @@ def gen_layer(sg, k):
         for _ in range(n_orb):
             x, y = rng.uniform(0.05, 0.45, 2) + np.array([0.0, 0.017])
             dz = 0.0 if flat else float(rng.uniform(-1.4, 1.4)) / cn
-            basis.append((x, y, dz) if sg not in MONO_B else (x, dz, y))
-        if sg <= 2:
+            basis.append((x, y, dz) if (sg not in MONO_B or inplane) else (x, dz, y))
+        if inplane:
+            cp = [a, b, cn, 90, 90, 90]
+        elif sg <= 2:
             cp = [a, b, cn, 90, 90, float(rng.uniform(70, 110))]
         elif sg in MONO_B:
             cp = [a, cn, b, 90, float(rng.uniform(97, 115)), 90]
@@ -74,7 +78,7 @@ def gen_layer(sg, k):
             at = crystal(species, basis, spacegroup=sg, cellpar=cp, onduplicates="replace", symprec=1e-4)
         except Exception:
             continue
-        axis = 1 if sg in MONO_B else 2
+        axis = 1 if (sg in MONO_B and not inplane) else 2
         # atoms near 0 and near 1 along the normal belong to one thin slice: centre it
         f = at.get_scaled_positions()
         f[:, axis] = (f[:, axis] + 0.5) % 1.0
@@ -160,7 +164,7 @@ def observe(a, mt, tol=0.05):
 
 def work(job):
     kind, key, k, npres = job
-    base = named(key) if kind == "named" else gen_layer(key, k)
+    base = named(key) if kind == "named" else gen_layer(key, k, inplane=(kind == "group_inplane"))
     if base is None:
         return [{"skip": "no layer generated"}]
     out = []
@@ -183,9 +187,10 @@ def work(job):
 def run(tier):
     run = Run("C11", tier, "exploration")
     d = scratch("c11")
-    npres = 4 if tier == "quick" else 8
+    npres = 6 if tier == "quick" else 8
     jobs = [("named", n, 0, npres + 2) for n in ("graphene", "BN", "MoS2", "TiS2", "AA-CSi", "AA-BN")]
-    jobs += [("group", sg, k, npres) for sg in LAYER_GROUPS for k in ([0] if tier == "quick" else [0, 1, 2])]
+    jobs += [("group", sg, k, npres) for sg in LAYER_GROUPS for k in ([0, 1] if tier == "quick" else [0, 1, 2, 3])]
+    jobs += [("group_inplane", sg, k, npres) for sg in sorted(MONO_B) for k in (range(4) if tier == "quick" else range(10))]
     recs, nogen = [], 0
     for group in pmap(work, jobs, chunksize=1):
         firsts = {}
